@@ -131,7 +131,7 @@ func cmdCheck(args []string) int {
 	var wg sync.WaitGroup
 	sem := make(chan struct{}, 12)
 	var solverMs int64
-	var mu sync.Mutex
+	var mu, textMu sync.Mutex
 	for _, j := range jobs {
 		wg.Add(1)
 		sem <- struct{}{}
@@ -141,7 +141,9 @@ func cmdCheck(args []string) int {
 			if j.ob.Cover {
 				// reachability: satisfied by the first query that is not refuted
 				for _, q := range j.ob.Queries {
+					textMu.Lock()
 					text := j.fv.smtText(q, false)
+					textMu.Unlock()
 					r := solve(text, 3*time.Second, false)
 					q.Result, q.Solver, q.Ms, q.SMT = r.result, r.solver, r.ms, text
 					if r.result != "unsat" {
@@ -150,7 +152,11 @@ func cmdCheck(args []string) int {
 				}
 				return
 			}
+			// query texts are built one at a time: the term constructors share per-function caches
+			textMu.Lock()
 			text := j.fv.smtText(j.q, true)
+			ground := j.fv.smtGround(j.q)
+			textMu.Unlock()
 			if *dump {
 				dumpQuery(filepath.Join(outDir, "smt"), j.ob.Name, j.n, text)
 			}
@@ -159,7 +165,6 @@ func cmdCheck(args []string) int {
 				// reachability: only `unsat` matters (vacuity); do not wait for a model
 				to = 3 * time.Second
 			}
-			ground := j.fv.smtGround(j.q)
 			if *dump && ground != "" {
 				dumpQuery(filepath.Join(outDir, "smt"), j.ob.Name+".ground", j.n, ground)
 			}
@@ -560,6 +565,14 @@ func assumptionsList(e *Engine, fvs []*FuncVer) []string {
 	for _, fv := range fvs {
 		for _, cl := range fv.block.ClausesOf("requires") {
 			out = append(out, fmt.Sprintf("precondition assumed for %s: %s", fv.shortName(), cl.Text))
+		}
+		for _, cl := range fv.block.ClausesOf("ensures") {
+			if strings.HasPrefix(cl.Name, "assumed:") {
+				out = append(out, fmt.Sprintf("NOT PROVED: postcondition [%s] of %s is assumed at its call sites: %s", strings.TrimPrefix(cl.Name, "assumed:"), fv.shortName(), cl.Text))
+			}
+		}
+		if fv.block.Flags["frame"] == "assumed" {
+			out = append(out, fmt.Sprintf("NOT PROVED: the assigns clause of %s (%s) is assumed at its call sites", fv.shortName(), fv.block.Flags["assigns"]))
 		}
 		for _, cl := range fv.block.ClausesOf("assumeafter") {
 			out = append(out, fmt.Sprintf("ASSUMED, not proved, in %s after %s [%s]: %s", fv.shortName(), cl.Target, cl.Name, cl.Text))
